@@ -25,6 +25,14 @@ def identOk (name : String) : Bool :=
     (c == '_' || isAsciiAlpha c) && cs.all (fun c => c == '_' || isAsciiAlpha c || isAsciiDigit c) &&
     !(name == "self" || name == "Self" || name == "super")
 
+/-- names that become Rust items or fields (rule names, field names): `crate` may start a function path but cannot
+    name an item (`check_name`) -/
+def nameOk (name : String) : Bool := identOk name && name != "crate"
+
+def nameErr (name : String) : List String :=
+  if identOk name then (if name == "crate" then ["'" ++ name ++ "' cannot be used as a rule or field name"] else [])
+  else ["'" ++ name ++ "' cannot be used as a Rust identifier"]
+
 def allAscii (name : String) : Bool := name.toList.all (fun c => c.toNat < 128)
 
 /-! ### traversal collecting the errors `generate_code` can raise inside an expression -/
@@ -51,9 +59,9 @@ def exprErrors (g : Grammar) : Nat → Expr → List String
       | some rule => exprErrors g n rule.definition
       | none => ["Could not find normal (not char or extern) rule named " ++ r])
     | .field name _ typ =>
-      (if identOk typ then [] else ["'" ++ typ ++ "' cannot be used as a Rust identifier"]) ++
+      nameErr typ ++
       (match name with
-       | some (.ident f) => if identOk f then [] else ["'" ++ f ++ "' cannot be used as a Rust identifier"]
+       | some (.ident f) => nameErr f
        | _ => [])
 
 /-! ### include cycles (`include_rule.rs: check_include_cycles`) -/
@@ -94,13 +102,13 @@ def pathErrors (p : List String) : List String :=
 
 def ruleErrors (g : Grammar) (st : Settings) (fuel : Nat) (r : Rule) : List String :=
   let flags := r.flags
-  let nameErr := if identOk r.name then [] else ["'" ++ r.name ++ "' cannot be used as a Rust identifier"]
+  let nameErr := nameErr r.name
   let fieldsR := getFields g fuel r.definition
   let fieldErr := match fieldsR with | .err m => [m] | .fuel => ["fuel"] | .ok _ => []
   let flagErr :=
     (if flags.exported && flags.string then ["@string rules cannot be @export-ed"] else []) ++
     (if r.name == "Whitespace" && !flags.noSkipWs then ["The 'Whitespace' rule (and all called rules) must be @no_skip_ws to prevent recursion"] else []) ++
-    (if flags.memoize && !st.derives.contains "Clone" then ["@memoize can only be used if 'Clone' is in the derives set"] else [])
+    (if (flags.memoize || flags.leftRecursive) && !st.derives.contains "Clone" then ["@memoize and @leftrec can only be used if 'Clone' is in the derives set"] else [])
   let bodyErr := exprErrors g fuel r.definition
   let kindErr := match fieldsR with
     | .ok fields =>
@@ -122,7 +130,7 @@ def ruleErrors (g : Grammar) (st : Settings) (fuel : Nat) (r : Rule) : List Stri
   nameErr ++ fieldErr ++ flagErr ++ bodyErr ++ kindErr ++ checkErr
 
 def charRuleErrors (r : CharRule) : List String :=
-  (if identOk r.name then [] else ["'" ++ r.name ++ "' cannot be used as a Rust identifier"]) ++
+  nameErr r.name ++
   r.directives.flatMap pathErrors ++
   r.choices.flatMap fun p => match p with
     | .chr item => (match item.toChar with | .err m => [m] | _ => [])
@@ -130,7 +138,7 @@ def charRuleErrors (r : CharRule) : List String :=
     | .ident _ => []
 
 def externRuleErrors (r : ExternRule) : List String :=
-  (if identOk r.name then [] else ["'" ++ r.name ++ "' cannot be used as a Rust identifier"]) ++
+  nameErr r.name ++
   pathErrors r.function ++ (match r.returnType with | some p => pathErrors p | none => [])
 
 /-- all the reasons the generator rejects a grammar (empty = accepted) -/
